@@ -47,6 +47,8 @@ class Cap:
         self.states = []         # dict(early, accept, eoi, edges=[(target, [(lo,hi)])])
         self.gerrs = []
         self.strip = None
+        self.stripchk = None
+        self.codevalid = None
         self.panic_msg = None
 
     def err_classes(self):
@@ -83,10 +85,13 @@ def run_capture(sources, code=False, strip=False):
     caps = {}
     cur = None
     pending_strip = {}
+    pending_chk = {}
     for ln in p.stdout.split('\n'):
         t = ln.split(' ')
         if t[0] == 'STRIP':
             pending_strip[int(t[1])] = t[2]
+        elif t[0] == 'STRIPCHK':
+            pending_chk[int(t[1])] = 'OK' if t[2] == 'OK' else unhexs(t[3]) if len(t) > 3 else 'BAD'
         elif t[0] == 'CASE':
             cur = Cap()
             cur.verdict = t[2]
@@ -95,12 +100,15 @@ def run_capture(sources, code=False, strip=False):
             caps[int(t[1])] = cur
             if int(t[1]) in pending_strip:
                 cur.strip = pending_strip[int(t[1])]
+                cur.stripchk = pending_chk.get(int(t[1]))
         elif cur is None:
             continue
         elif t[0] == 'ERR':
             cur.errs.append(unhexs(t[1]) if len(t) > 1 else '')
         elif t[0] == 'CODE':
             cur.code = t[2]
+        elif t[0] == 'CODEVALID':
+            cur.codevalid = t[1] == '1'
         elif t[0] == 'CODETEXT':
             cur.codetext = unhexs(t[1])
         elif t[0] == 'NODUMP':
